@@ -201,11 +201,14 @@ theorem owner_gets_through {s : Sys} {p : Nat} {nb : Bool}
         simp only [Option.some.injEq] at ht
         simp [dispatchGuard, ht]
 
-/-- the side-effect counter changes in no step other than a method call that answers `ran` -/
-theorem count_changes_only_by_execution (s : Sys) (op : Op) :
+/-- the side-effect counter of an object changes in no step other than a method call that answers `ran` (removing
+the object and creating it again under the same name gives a *new* object, whose counter starts at 0) -/
+theorem count_changes_only_by_execution (s : Sys) (op : Op) (hop : op ≠ .recreate) :
     (step s op).1.count = s.count ∨
     (∃ p nb, op = .call p nb ∧ (step s op).2 = .ran (s.count + 1) ∧ (step s op).1.count = s.count + 1) := by
   cases op with
+  | recreate => exact absurd rfl hop
+  | stopCtx c => left; rfl
   | newCtx name nonce => left; rfl
   | newProxy c => left; simp only [step]; split <;> rfl
   | burn c => left; simp only [step]; split <;> rfl
@@ -299,12 +302,17 @@ theorem only_owner_executes_history (srv nonce : String) (ops : List Op) :
 /-! ## 4. Released only by the owner's unlock or by force-unlock -/
 
 /-- if a step ends an ownership, the object is unlocked afterwards (ownership is never handed over directly) and
-the step was a force-unlock or an unlock whose request carried the owner token -/
+the step was a force-unlock, an unlock whose request carried the owner token, or the removal of the object itself
+(`recreate`: the lock dies with the object; the new object of the same name starts unlocked).  In particular a client
+disconnect (`stopCtx`) does **not** release the lock. -/
 theorem release_only_by_owner_or_force {s : Sys} {op : Op} {o : Token}
     (ho : s.owner = some o) (hne : (step s op).1.owner ≠ some o) :
     (step s op).1.owner = none ∧
-    ((∃ p, op = .forceUnlock p) ∨ (∃ p custom, op = .unlock p custom ∧ unlockToken s p custom = some (some o))) := by
+    ((∃ p, op = .forceUnlock p) ∨ (∃ p custom, op = .unlock p custom ∧ unlockToken s p custom = some (some o)) ∨
+      op = .recreate) := by
   cases op with
+  | recreate => exact ⟨rfl, Or.inr (Or.inr rfl)⟩
+  | stopCtx c => exact absurd ho hne
   | newCtx name nonce => exact absurd ho hne
   | newProxy c => simp only [step] at hne; split at hne <;> exact absurd ho hne
   | burn c => simp only [step] at hne; split at hne <;> exact absurd ho hne
@@ -315,7 +323,7 @@ theorem release_only_by_owner_or_force {s : Sys} {op : Op} {o : Token}
   | unlock p custom =>
     rcases owner_unlock s p custom with h | ⟨_, h1, h2⟩
     · rw [h] at hne; exact absurd ho hne
-    · exact ⟨h1, Or.inr ⟨p, custom, rfl, by rw [h2, ho]⟩⟩
+    · exact ⟨h1, Or.inr (Or.inl ⟨p, custom, rfl, by rw [h2, ho]⟩)⟩
   | forceUnlock p =>
     rcases owner_force s p with h | h
     · rw [h] at hne; exact absurd ho hne
@@ -353,12 +361,33 @@ example : wLocked.dead = none ∧ unlockToken wLocked 1 none = some none ∧
 theorem release_only_by_owner_or_force_history (srv nonce : String) (ops : List Op) :
     ∀ e ∈ trace (init srv nonce) ops, ∀ o, e.1.owner = some o → e.2.2.1.owner ≠ some o →
       e.2.2.1.owner = none ∧
-      ((∃ p, e.2.1 = .forceUnlock p) ∨ (∃ p custom, e.2.1 = .unlock p custom ∧ unlockToken e.1 p custom = some (some o))) := by
+      ((∃ p, e.2.1 = .forceUnlock p) ∨ (∃ p custom, e.2.1 = .unlock p custom ∧ unlockToken e.1 p custom = some (some o)) ∨
+        e.2.1 = .recreate) := by
   intro e he o ho hne
   obtain ⟨_, hstep⟩ := trace_mem he (Inv_init srv nonce)
   have h1 : e.2.2.1 = (step e.1 e.2.1).1 := by rw [← hstep]
   rw [h1] at hne ⊢
   exact release_only_by_owner_or_force ho hne
+
+/-! ## 4b. Object removal / re-creation under the same name, client disconnect -/
+
+/-- a re-created object starts unlocked, serving, with a fresh side-effect counter; contexts, proxies (and what they
+remember) and the log of generated tokens are untouched -/
+theorem recreate_starts_unlocked (s : Sys) :
+    (step s .recreate).1.owner = none ∧ (step s .recreate).1.dead = none ∧ (step s .recreate).1.count = 0 ∧
+    (step s .recreate).1.proxies = s.proxies ∧ (step s .recreate).1.ctxs = s.ctxs ∧ (step s .recreate).1.gens = s.gens :=
+  ⟨rfl, rfl, rfl, rfl, rfl, rfl⟩
+
+/-- a client disconnect changes nothing on the server side: the lock survives (documented: `force_unlock()` is the
+way out when the owning proxy no longer exists; a same-named new context can still unlock with the custom token) -/
+theorem lock_survives_disconnect (s : Sys) (c : Nat) : step s (.stopCtx c) = (s, .unit) := rfl
+
+/-- a stale token does not own the new object: the holder of the old object's lock (proxy 0, token `$lock_b1_1`) is
+refused once somebody else (proxy 1) has locked the re-created object, although it still remembers its token -/
+theorem stale_token_does_not_own_new_object :
+    (run wLocked [.recreate, .isLocked 1, .lock 1 none, .call 0 false, .unlock 0 none, .call 1 true]).2
+      = [.unit, .bool false, .bool true, .locked, .bool false, .ran 1] := by
+  decide
 
 /-! ## 5. `is_locked` is truthful -/
 
@@ -394,9 +423,11 @@ theorem force_unlock_unlocked_is_answered :
       = [.idx 1, .idx 0, .unit, .bool false, .bool true, .ran 1] := by
   decide
 
-/-- once the worker is dead it stays dead -/
-theorem dead_is_forever {s : Sys} (op : Op) (hd : s.dead ≠ none) : (step s op).1.dead = s.dead := by
+/-- once the worker is dead it stays dead (until the object is removed) -/
+theorem dead_is_forever {s : Sys} (op : Op) (hd : s.dead ≠ none) (hop : op ≠ .recreate) : (step s op).1.dead = s.dead := by
   cases op with
+  | recreate => exact absurd rfl hop
+  | stopCtx c => rfl
   | newCtx name nonce => rfl
   | newProxy c => simp only [step]; split <;> rfl
   | burn c => simp only [step]; split <;> rfl
@@ -516,5 +547,161 @@ example : ((exec (init "srv" "a0") [.newCtx "cli" "b1", .newCtx "cli" "c2", .new
     (exec (init "srv" "a0") [.newCtx "cli" "b1", .newCtx "cli" "c2", .newProxy 1, .newProxy 2, .lock 0 none]).owner = some (mkToken "cli" "b1" 1) ∧
     (step (exec (init "srv" "a0") [.newCtx "cli" "b1", .newCtx "cli" "c2", .newProxy 1, .newProxy 2, .lock 0 none]) (.call 0 false)).2 = .ran 1 := by
   decide
+
+/-! ## 9. `lock(timeout > 0)`: the retry loop
+
+`retryLoop p px my s envs n`: one ACQUIRE per iteration, always with the token made before the loop; `envs` has one
+entry per iteration the clock allows (what everybody else does while the proxy sleeps after a denied attempt). -/
+
+theorem retry_count_le (p : Nat) (px : Proxy) (my : Token) (envs : List (List Op)) :
+    ∀ s n, (retryLoop p px my s envs n).2.2 ≤ n + envs.length := by
+  induction envs with
+  | nil => intro s n; simp [retryLoop]
+  | cons env rest ih =>
+    intro s n
+    simp only [retryLoop]
+    rcases lockRequest s .acquire (some my) with ⟨s2, _ | their⟩
+    · simp <;> omega
+    · dsimp only
+      split
+      · simp <;> omega
+      · have := ih (exec s2 env) (n + 1); simp only [List.length_cons]; omega
+
+/-- `False` is returned only after every iteration the clock allowed was used -/
+theorem retry_false_used_all (p : Nat) (px : Proxy) (my : Token) (envs : List (List Op)) :
+    ∀ s n, (retryLoop p px my s envs n).2.1 = .bool false → (retryLoop p px my s envs n).2.2 = n + envs.length := by
+  induction envs with
+  | nil => intro s n _; simp [retryLoop]
+  | cons env rest ih =>
+    intro s n
+    simp only [retryLoop]
+    rcases lockRequest s .acquire (some my) with ⟨s2, _ | their⟩
+    · simp
+    · dsimp only
+      split
+      · simp
+      · intro h; have := ih (exec s2 env) (n + 1) h; simp only [List.length_cons]; omega
+
+/-- the first attempt that finds the object free (or held with the same token) wins, and nothing is sent after it:
+exactly one request, the rest of the allowed iterations is not used -/
+theorem retry_stops_at_first_grant (p : Nat) (px : Proxy) (my : Token) (s : Sys) (env : List Op) (rest : List (List Op))
+    (n : Nat) (halive : s.dead = none) (hfree : s.owner = none ∨ s.owner = some my) :
+    retryLoop p px my s (env :: rest) n = (setProxyTok { s with owner := some my } p px (some my), .bool true, n + 1) := by
+  simp only [retryLoop]
+  rw [lockRequest_ok halive (by simp [issuable])]
+  rcases hfree with h | h <;> simp [h, lockSpec]
+
+/-- a denied attempt changes nothing by itself -/
+theorem retry_denied_step (p : Nat) (px : Proxy) (my o : Token) (s : Sys) (env : List Op) (rest : List (List Op)) (n : Nat)
+    (halive : s.dead = none) (ho : s.owner = some o) (hne : my ≠ o) (hd : my ≠ deniedTok s.srv) :
+    retryLoop p px my s (env :: rest) n = retryLoop p px my (exec s env) rest (n + 1) := by
+  simp only [retryLoop]
+  rw [lockRequest_ok halive (by simp [issuable])]
+  have h1 : ¬ some my = some o := by simpa using hne
+  have h2 : ¬ deniedTok s.srv = my := fun e => hd e.symm
+  simp only [ho, lockSpec, h1, ↓reduceIte, Option.some.injEq, h2]
+  congr 1
+  cases s; simp_all
+
+/-- `True` ⇒ the object is owned with the proxy's token and the proxy remembers it -/
+theorem retry_granted_means_owner (p : Nat) (px : Proxy) (my : Token) (envs : List (List Op)) :
+    ∀ s n, (∀ srv, my ≠ deniedTok srv) → (retryLoop p px my s envs n).2.1 = .bool true →
+      (retryLoop p px my s envs n).1.owner = some my := by
+  induction envs with
+  | nil => intro s n _ h; simp [retryLoop] at h
+  | cons env rest ih =>
+    intro s n hd
+    simp only [retryLoop]
+    cases hdead : s.dead with
+    | some e => rw [lockRequest_dead (by simp [hdead])]; simp
+    | none =>
+      rw [lockRequest_ok hdead (by simp [issuable])]
+      dsimp only
+      split
+      · rename_i hgr
+        intro _
+        cases ho : s.owner with
+        | none => simp [setProxyTok, lockSpec]
+        | some o =>
+          rw [ho] at hgr
+          simp only [lockSpec] at hgr ⊢
+          by_cases e : some my = some o
+          · simp [e, setProxyTok]
+          · have h2 : ¬ deniedTok s.srv = my := fun e => hd _ e.symm
+            simp [e, h2] at hgr
+      · intro h; exact ih _ _ hd h
+
+/-- termination within the timeout: with a period of at least one time unit the loop makes at most ⌈timeout/period⌉
+iterations, whatever the round-trip times are -/
+theorem iters_le (timeout period : Nat) (dur : Nat → Nat) (hp : 1 ≤ period) :
+    ∀ fuel elapsed i, iters timeout period dur fuel elapsed i ≤ i + (timeout - elapsed + period - 1) / period := by
+  intro fuel
+  induction fuel with
+  | zero => intro e i; simp [iters]
+  | succ f ih =>
+    intro e i
+    simp only [iters]
+    split
+    · rename_i hlt
+      have := ih (e + max period (dur i)) (i + 1)
+      have hm : period ≤ max period (dur i) := Nat.le_max_left _ _
+      have h1 : (timeout - (e + max period (dur i)) + period - 1) / period + 1 ≤ (timeout - e + period - 1) / period := by
+        by_cases hc : e + max period (dur i) < timeout
+        · have hle : timeout - (e + max period (dur i)) + period - 1 + period ≤ timeout - e + period - 1 := by omega
+          calc (timeout - (e + max period (dur i)) + period - 1) / period + 1
+              = (timeout - (e + max period (dur i)) + period - 1 + period) / period := by
+                rw [Nat.add_div_right _ (by omega)]
+            _ ≤ (timeout - e + period - 1) / period := Nat.div_le_div_right hle
+        · have hz : timeout - (e + max period (dur i)) + period - 1 = period - 1 := by omega
+          rw [hz, Nat.div_eq_of_lt (by omega)]
+          exact Nat.div_pos (by omega) (by omega)
+      omega
+    · exact Nat.le_add_right _ _
+
+/-- at least one attempt is made when the timeout is positive -/
+theorem iters_pos (timeout period : Nat) (dur : Nat → Nat) (ht : 0 < timeout) (fuel : Nat) :
+    1 ≤ iters timeout period dur (fuel + 1) 0 0 := by
+  simp only [iters, ht, ↓reduceIte]
+  have mono : ∀ f e i, i ≤ iters timeout period dur f e i := by
+    intro f; induction f with
+    | zero => intro e i; simp [iters]
+    | succ f ih => intro e i; simp only [iters]; split
+                   · have := ih (e + max period (dur i)) (i + 1); omega
+                   · omega
+  exact mono _ _ _
+
+example : (proxyLockRetry wLocked 1 none [[], [.unlock 0 none], [], []]).2 = (.bool true, 3) ∧
+    (proxyLockRetry wLocked 1 none [[], [], []]).2 = (.bool false, 3) ∧
+    (proxyLockRetry wFree 1 none [[], [], []]).2 = (.bool true, 1) ∧
+    iters 350 100 (fun _ => 0) 351 0 0 = 4 ∧ iters 50 100 (fun _ => 0) 51 0 0 = 1 := by decide
+
+/-! ## 10. The `with proxy:` form
+
+`with proxy:` is an RPC call of `__enter__` followed (only if that returned) by an RPC call of `__exit__`, both through
+the blocking proxy, i.e. two ordinary guarded calls. -/
+
+/-- `with proxy: pass` -/
+def withForm (s : Sys) (p : Nat) : Sys × Out :=
+  match step s (.call p false) with
+  | (s1, .ran _) => step s1 (.call p false)
+  | r => r
+
+/-- locked by somebody else: `__enter__` is refused, nothing runs (not even `__exit__`), nothing changes -/
+theorem with_form_refused {s : Sys} {p : Nat} {o : Token} {tk : Option Token}
+    (halive : s.dead = none) (ho : s.owner = some o) (ht : callToken s p false = some tk) (hne : tk ≠ some o) :
+    withForm s p = (s, .locked) := by
+  simp only [withForm, refused_without_executing halive ho ht hne]
+
+/-- free, or held by this proxy: both bodies run, in order -/
+theorem with_form_runs {s : Sys} {p : Nat}
+    (halive : s.dead = none) (ht : s.owner = none ∨ callToken s p false = some s.owner) (hv : (callToken s p false).isSome) :
+    withForm s p = ({ s with count := s.count + 2 }, .ran (s.count + 2)) := by
+  have h1 := owner_gets_through halive ht hv
+  simp only [withForm, h1]
+  have h2 := owner_gets_through (s := { s with count := s.count + 1 }) (p := p) (nb := false) halive
+    (by simpa [callToken] using ht) (by simpa [callToken] using hv)
+  rw [h2]
+
+example : withForm wLocked 1 = (wLocked, .locked) ∧ (withForm wLocked 0).2 = .ran 2 := by decide
 
 end QmiModel.Lock
